@@ -5,6 +5,7 @@ package core
 import (
 	"errors"
 	"math/big"
+	"time"
 
 	"gitlab.com/aquachain/aquachain/common"
 	"gitlab.com/aquachain/aquachain/core/types"
@@ -43,30 +44,31 @@ func VerifC06_IntrinsicGas() {
 // chain configurations (fork flags are concrete per path)
 
 var c06Configs = []*params.ChainConfig{
+	c06Latest,
 	{ChainId: big.NewInt(1)}, // frontier rules
 	{ChainId: big.NewInt(1), HomesteadBlock: big.NewInt(0)},
 	{ChainId: big.NewInt(1), HomesteadBlock: big.NewInt(0), EIP150Block: big.NewInt(0), EIP155Block: big.NewInt(0), EIP158Block: big.NewInt(0)},
 	{ChainId: big.NewInt(1), HomesteadBlock: big.NewInt(0), EIP150Block: big.NewInt(0), EIP155Block: big.NewInt(0), EIP158Block: big.NewInt(0), ByzantiumBlock: big.NewInt(0)},
-	{ChainId: big.NewInt(1), HomesteadBlock: big.NewInt(0), EIP150Block: big.NewInt(0), EIP155Block: big.NewInt(0), EIP158Block: big.NewInt(0), ByzantiumBlock: big.NewInt(0),
-		HF: params.ForkMap{1: big.NewInt(0), 5: big.NewInt(0)}},
 }
+
+var c06Latest = &params.ChainConfig{ChainId: big.NewInt(1), HomesteadBlock: big.NewInt(0), EIP150Block: big.NewInt(0), EIP155Block: big.NewInt(0), EIP158Block: big.NewInt(0), ByzantiumBlock: big.NewInt(0),
+	HF: params.ForkMap{1: big.NewInt(0), 5: big.NewInt(0)}}
 
 // ---------------------------------------------------------------------------
 // contract stub: what the callee frame did, recorded for the oracle
 
 type c06StubLog struct {
-	called   bool
-	gasIn    uint64 // gas forwarded to the frame
-	left     uint64 // leftover returned by the frame
-	err      error
-	moved    bool // the value transfer happened (and was not rolled back)
-	insuff   bool
+	called bool
+	gasIn  uint64 // gas forwarded to the frame
+	left   uint64 // leftover returned by the frame
+	err    error
+	moved  bool // the value transfer happened (and was not rolled back)
+	insuff bool
 }
 
 var c06Stub c06StubLog
 
 var c06ErrReverted = errors.New("stub: execution reverted")
-var c06ErrOther = errors.New("stub: out of gas / invalid")
 
 // c06StubCall replaces (*vm.EVM).Call under the engine: the frame contract of
 // EVM.Call as established by C07 (leftover <= gas; on error the state is the
@@ -85,18 +87,15 @@ func c06StubCall(evm *vm.EVM, caller vm.ContractRef, addr common.Address, input 
 	left := vs.U64("stub.left")
 	vs.Assume(left <= gas)
 	c06Stub.left = left
-	switch vs.Choice("stub.outcome", 3) {
-	case 0:
+	if vs.Choice("stub.outcome", 2) == 0 {
 		Transfer(db, caller.Address(), addr, value)
 		db.AddRefund(vs.U64("stub.refund"))
 		c06Stub.moved = true
 		return vs.BytesN("stub.ret", 1), left, nil
-	case 1:
-		c06Stub.err = c06ErrReverted
-		return vs.BytesN("stub.ret", 1), left, c06ErrReverted
 	}
-	c06Stub.err = c06ErrOther
-	return nil, left, c06ErrOther
+	// revert, out of gas, invalid opcode, ...: any error other than ErrInsufficientBalance, any leftover
+	c06Stub.err = c06ErrReverted
+	return vs.BytesN("stub.ret", 1), left, c06ErrReverted
 }
 
 // ---------------------------------------------------------------------------
@@ -118,6 +117,8 @@ type c06Tx struct {
 	bal0   []*big.Int
 	nonce0 []uint64
 	ref0   uint64
+	// post: gas counter of the state transition (remaining gas incl. refund)
+	gasLeft uint64
 }
 
 func c06Setup(nslots int, dataMax int) *c06Tx {
@@ -125,16 +126,24 @@ func c06Setup(nslots int, dataMax int) *c06Tx {
 	t.db = c06NewDB(nslots)
 	r := c06Roles[vs.Choice("roles", len(c06Roles))]
 	t.sender, t.to, t.coinbase = c06Addrs[r[0]], c06Addrs[r[1]], c06Addrs[r[2]]
+	for i, a := range t.db.accts {
+		// a slot no role refers to is a bystander: it exists (a missing bystander is the same case as an existing one with zero balance)
+		vs.Assume(a.exist || i == r[0] || i == r[1] || i == r[2])
+	}
 	t.nonce = vs.U64("tx.nonce")
 	t.price = vs.Big("tx.price")
 	t.value = vs.Big("tx.value")
 	vs.Assume(t.price.Sign() >= 0)
 	vs.Assume(t.value.Sign() >= 0)
 	t.limit = vs.U64("tx.gas")
-	t.data = vs.Bytes("tx.data", dataMax)
+	if dataMax < 0 {
+		t.data = vs.BytesN("tx.data", -dataMax) // exactly -dataMax bytes
+	} else {
+		t.data = vs.Bytes("tx.data", dataMax) // every length 0..dataMax
+	}
 	t.check = true
 	t.pool = vs.U64("pool")
-	t.cfg = c06Configs[vs.Choice("rules", len(c06Configs))]
+	t.cfg = c06Configs[vs.Choice("rules", vs.Param("rules"))]
 	for _, a := range t.db.accts {
 		t.bal0 = append(t.bal0, new(big.Int).Set(a.bal))
 		t.nonce0 = append(t.nonce0, a.nonce)
@@ -176,9 +185,18 @@ func VerifC06_TransferStub() {
 	to := t.to
 	msg := types.NewMessage(t.sender, &to, t.nonce, t.value, t.limit, t.price, t.data, true)
 	gp := GasPool(t.pool)
-	ret, used, failed, err := ApplyMessage(evm, msg, &gp)
-	_ = ret
+	st := NewStateTransition(evm, msg, &gp) // = ApplyMessage, keeping st to read the final gas counter
+	_, used, failed, err := st.TransitionDb()
+	t.gasLeft = st.gas
+	if err == nil {
+		vs.Assert(c06Stub.called, "callee frame entered")
+	}
+	c06CheckCall(t, &c06Stub, uint64(gp), used, failed, err)
+}
 
+// c06CheckCall is the oracle for a message-call transaction: fr describes what
+// the callee frame did (gas it received, gas it left, its error).
+func c06CheckCall(t *c06Tx, fr *c06StubLog, pool1 uint64, used uint64, failed bool, err error) {
 	si := c06idx(t.sender)
 	intrinsic := uint64(21000)
 	for _, b := range t.data {
@@ -192,22 +210,23 @@ func VerifC06_TransferStub() {
 	afterGas := new(big.Int).Sub(t.bal0[si], prepay)
 
 	// the block is invalid iff one of these holds
-	bad := t.nonce0[si] != t.nonce || t.bal0[si].Cmp(prepay) < 0 || t.pool < t.limit || t.limit < intrinsic || afterGas.Cmp(t.value) < 0
+	// (operands evaluated first so that the disjunction is a pure term, not a chain of forks)
+	b1, b2, b3, b4, b5 := t.nonce0[si] != t.nonce, t.bal0[si].Cmp(prepay) < 0, t.pool < t.limit, t.limit < intrinsic, afterGas.Cmp(t.value) < 0
+	bad := b1 || b2 || b3 || b4 || b5
 	vs.Assert((err != nil) == bad, "error iff nonce mismatch, cannot prepay gas, pool exhausted, limit below intrinsic, or cannot afford value")
 	if err != nil {
 		vs.Reach("reject")
 		return
 	}
 	vs.Reach("accept")
-	vs.Assert(c06Stub.called, "callee frame entered")
-	vs.Assert(c06Stub.gasIn == t.limit-intrinsic, "gas forwarded = limit - intrinsic")
-	vs.Assert(failed == (c06Stub.err != nil), "failed iff the vm reported an error")
+	vs.Assert(fr.gasIn == t.limit-intrinsic, "gas forwarded = limit - intrinsic")
+	vs.Assert(failed == (fr.err != nil), "failed iff the vm reported an error")
 	if failed {
 		vs.Reach("failed")
 	}
 
 	// gas accounting
-	spent := t.limit - c06Stub.left
+	spent := t.limit - fr.left
 	refund := spent / 2
 	if t.db.refund < refund {
 		refund = t.db.refund
@@ -217,7 +236,7 @@ func VerifC06_TransferStub() {
 	vs.Assert(spent >= intrinsic, "gas consumed before the refund >= intrinsic gas")
 	vs.Assert(used >= spent-spent/2, "refund capped at half of the gas consumed")
 	vs.Assert(t.db.refund != 0 || used >= intrinsic, "without refunds intrinsic <= gasUsed")
-	vs.Assert(uint64(gp) == t.pool-used, "pool' = pool - gasUsed")
+	vs.Assert(pool1 == t.pool-used, "pool' = pool - gasUsed")
 	vs.Observe("used", used)
 
 	// balances and nonces
@@ -229,8 +248,11 @@ func VerifC06_TransferStub() {
 		!t.db.log[n-1].sub && t.db.log[n-1].addr == t.coinbase, "buyGas debit first, sender refund and coinbase credit last")
 	vs.Assert(t.db.log[0].amount.Cmp(prepay) == 0, "prepayment = limit*price")
 	vs.Assert(t.db.log[n-1].amount.Cmp(fee) == 0, "coinbase credit = gasUsed*price")
+	// (linear step first: limit = remaining + used over the integers, then the same multiplied by the price)
+	vs.Assert(new(big.Int).SetUint64(t.limit).Cmp(new(big.Int).Add(new(big.Int).SetUint64(t.gasLeft), new(big.Int).SetUint64(used))) == 0, "limit = remaining gas + gasUsed")
+	vs.Assert(t.db.log[n-2].amount.Cmp(new(big.Int).Mul(new(big.Int).SetUint64(t.gasLeft), t.price)) == 0, "sender refund = remaining gas * price")
 	vs.Assert(t.db.log[0].amount.Cmp(new(big.Int).Add(t.db.log[n-2].amount, t.db.log[n-1].amount)) == 0, "prepayment = refund + fee")
-	vs.Assert(!t.db.negative, "no balance ever below zero")
+	vs.Assert(t.db.nonNegative(), "no balance ever below zero")
 	for i, a := range t.db.accts {
 		want := new(big.Int).Set(t.bal0[i])
 		if a.addr == t.sender {
@@ -245,6 +267,7 @@ func VerifC06_TransferStub() {
 		if a.addr == t.coinbase {
 			want.Add(want, fee)
 		}
+		vs.Observe("bal", a.bal)
 		vs.Assert(a.bal.Cmp(want) == 0, "balance' = balance - [sender](fee + value if ok) + [recipient](value if ok) + [coinbase]fee")
 		wn := t.nonce0[i]
 		if a.addr == t.sender {
@@ -253,4 +276,82 @@ func VerifC06_TransferStub() {
 		vs.Assert(a.nonce == wn, "nonce' = nonce + 1 for the sender only")
 	}
 	vs.Assert(len(t.db.accts) == 3, "no account appears")
+}
+
+// ---------------------------------------------------------------------------
+// Real EVM.Call and interpreter; the callee is one of a few tiny programs and a
+// tracer (vm.Config.Debug, a parameter of ApplyTransaction) makes it arbitrary:
+// just before the final instruction executes it burns an arbitrary part of the
+// remaining gas and bumps the refund counter by an arbitrary amount.  The same
+// code runs natively, so counterexamples replay against the real build.
+
+var c06Programs = [][]byte{
+	nil,                            // no code: plain value transfer
+	{0x00},                         // STOP: success
+	{0xfe},                         // invalid opcode: error, all gas consumed
+	{0x60, 0x00, 0x60, 0x00, 0xfd}, // PUSH1 0 PUSH1 0 REVERT: leftover kept from Byzantium on, invalid opcode before
+}
+
+type c06Tracer struct {
+	db      *c06DB
+	last    uint64 // pc of the final instruction
+	log     c06StubLog
+	effects bool     // C05: the callee also moves value around / self-destructs
+	burned  *big.Int // value destroyed by a self-destruct to self
+	self    common.Address
+}
+
+func (tr *c06Tracer) CaptureStart(from common.Address, to common.Address, call bool, input []byte, gas uint64, value *big.Int) error {
+	tr.log.called = true
+	tr.log.gasIn = gas
+	return nil
+}
+
+func (tr *c06Tracer) CaptureState(env *vm.EVM, pc uint64, op vm.OpCode, gas, cost uint64, memory *vm.Memory, stack *vm.Stack, contract *vm.Contract, depth int, err error) error {
+	if err == nil && pc == tr.last {
+		left := vs.U64("callee.left")
+		vs.Assume(left <= contract.Gas)
+		contract.Gas = left
+		tr.db.AddRefund(vs.U64("callee.refund"))
+		if tr.effects {
+			tr.calleeEffects(contract.Address())
+		}
+	}
+	return nil
+}
+
+func (tr *c06Tracer) CaptureFault(env *vm.EVM, pc uint64, op vm.OpCode, gas, cost uint64, memory *vm.Memory, stack *vm.Stack, contract *vm.Contract, depth int, err error) error {
+	return nil
+}
+
+func (tr *c06Tracer) CaptureEnd(output []byte, gasUsed uint64, d time.Duration, err error) error {
+	tr.log.left = tr.log.gasIn - gasUsed
+	tr.log.err = err
+	return nil
+}
+
+// VerifC06_TransferEVM: TransitionDb + real EVM.Call + interpreter.
+func VerifC06_TransferEVM() {
+	t := c06Setup(3, vs.Param("N"))
+	prog := c06Programs[vs.Choice("program", vs.Param("P"))]
+	t.db.find(t.to).code = prog
+	if prog != nil {
+		// an account with code exists
+		vs.Assume(t.db.find(t.to).exist)
+	}
+	tr := &c06Tracer{db: t.db}
+	if len(prog) > 0 {
+		tr.last = uint64(len(prog) - 1)
+	}
+	evm := t.evm(vm.Config{Debug: true, Tracer: tr})
+	to := t.to
+	msg := types.NewMessage(t.sender, &to, t.nonce, t.value, t.limit, t.price, t.data, true)
+	gp := GasPool(t.pool)
+	st := NewStateTransition(evm, msg, &gp) // = ApplyMessage, keeping st to read the final gas counter
+	_, used, failed, err := st.TransitionDb()
+	t.gasLeft = st.gas
+	if err == nil {
+		vs.Assert(tr.log.called, "callee frame entered") // (st.to() creates the recipient, so EVM.Call never skips the frame at depth 0)
+	}
+	c06CheckCall(t, &tr.log, uint64(gp), used, failed, err)
 }
